@@ -91,6 +91,8 @@ func (s *c04slot) ownFopts(v ssa.Value) bool {
 
 func checkC04(c *Ctx, r *Report) {
 	defer nanRule(c, r)
+	defer everyFieldHandledRule(c, r)
+	defer validatorSiblingsRule(c, r)
 	r.Assumption("custom validators registered with RegisterValidator and Validate() methods are user code; the rule decides that they are called, not what they accept")
 	r.Assumption("kind waiver: no built-in validator inspects struct values or Config-convertible values; a pointer to a map passes every built-in validator when non-nil")
 	runV := c.Func("", "runValidators")
@@ -950,5 +952,103 @@ func nanRule(c *Ctx, r *Report) {
 			r.Check(bad == "", "R04h", name, "float accepted on a true edge", c.Pos(fn.Pos()), fmt.Sprintf("%d accepting path(s), each through the true edge of a float comparison", accepting),
 				"a floating point value is accepted (return at "+bad+") on a path that takes no float comparison on its true edge: NaN fails every comparison and so passes this validator — a NaN setting satisfies min / max / positive")
 		}
+	}
+}
+
+// validatorSiblingsRule (R04i): the built-in tag validators are siblings: each receives the field's value as an
+// interface{} and decides by its kind. (i) The kind every one of them switches on is that of chaseValue(…) — a
+// pre-filled *int is validated through its pointer, and a validator that looks at the pointer's kind accepts
+// everything. (ii) None recognises a string by asserting the value to the predeclared type string: a named string
+// type (type Level string) fails the assertion and would be accepted empty.
+func validatorSiblingsRule(c *Ctx, r *Report) {
+	r.Rule("R04i", "every built-in tag validator takes the kind of its value after chaseValue, and none recognises strings by an assertion to string", 5)
+	kt, _ := reflectKind(c)
+	for _, name := range []string{"validateNonZero", "validatePositive", "validateMin", "validateMax", "validateNonEmptyWithAllowNil"} {
+		fn := c.TryFunc("", name)
+		if fn == nil {
+			r.add("R04i", "ucfg."+name, "kind of the chased value", "-", Undecided, true, "validator not found")
+			continue
+		}
+		bad := ""
+		kindCalls := 0
+		Instrs(fn, false, func(in ssa.Instruction) {
+			switch x := in.(type) {
+			case *ssa.Call:
+				if g := x.Call.StaticCallee(); g != nil && g.String() == "(reflect.Value).Kind" && typeStr(x.Type()) == typeStr(kt) {
+					kindCalls++
+					chased := false
+					for _, s := range append(Sources(x.Call.Args[0]), x.Call.Args[0]) {
+						if cc, ok := s.(*ssa.Call); ok && cc.Call.StaticCallee() != nil && cc.Call.StaticCallee().Name() == "chaseValue" {
+							chased = true
+						}
+					}
+					// validateNonEmptyWithAllowNil looks at slices, maps and strings, which it is handed as they are
+					if !chased && name != "validateNonEmptyWithAllowNil" {
+						bad = "Kind() of the value as handed over at " + c.Pos(x.Pos())
+					}
+				}
+			case *ssa.TypeAssert:
+				if bt, ok := x.AssertedType.(*types.Basic); ok && bt.Kind() == types.String {
+					bad = "assertion to string at " + c.Pos(x.Pos())
+				}
+			}
+		})
+		r.Check(bad == "", "R04i", c.FnName(fn), "kind of the chased value", c.Pos(fn.Pos()), fmt.Sprintf("%d kind test(s), all behind chaseValue; no assertion to string", kindCalls),
+			"the validator decides on "+bad+": a value held by a pointer (a pre-filled *int the configuration does not mention) or of a named string type is not what the test expects, and the validator accepts it whatever it holds")
+	}
+}
+
+// everyFieldHandledRule (R04j): reifyStruct visits every field that takes part (accessField does not say skip) and
+// hands it to a routine that unpacks and validates it (reifyGetField, reifyInto, reifyMergeValue) or validates it
+// as it stands (tryRecursiveValidate). No way round the loop from "not skipped" back to the loop head avoids all of
+// them: a `continue` for some shape of configuration leaves that field's validate tag and Validate() unasked.
+func everyFieldHandledRule(c *Ctx, r *Report) {
+	r.Rule("R04j", "in reifyStruct's field loop every iteration that does not skip its field reaches reifyGetField, reifyInto, reifyMergeValue or tryRecursiveValidate before the next iteration", 1)
+	rs := c.Func("", "reifyStruct")
+	af := c.Func("", "accessField")
+	handlers := map[string]bool{"reifyGetField": true, "reifyInto": true, "reifyMergeValue": true, "tryRecursiveValidate": true}
+	calls := CallsTo(rs, af, false)
+	if len(calls) == 0 {
+		r.add("R04j", c.FnName(rs), "every field handled", c.Pos(rs.Pos()), Undecided, true, "reifyStruct does not call accessField")
+		return
+	}
+	for _, ci := range calls {
+		call := ci.(*ssa.Call)
+		lp := loopOf(rs, call.Block())
+		if lp == nil {
+			r.add("R04j", c.FnName(rs), "every field handled", c.Pos(call.Pos()), Undecided, true, "accessField is not called in a loop")
+			continue
+		}
+		hdr := loopHeader(lp)
+		// the skip result and the branch on it
+		var start *ssa.BasicBlock
+		for _, ref := range *call.Referrers() {
+			ex, ok := ref.(*ssa.Extract)
+			if !ok || ex.Index != 1 || ex.Referrers() == nil {
+				continue
+			}
+			for _, r2 := range *ex.Referrers() {
+				if ifi, isIf := r2.(*ssa.If); isIf && ifi.Cond == ssa.Value(ex) {
+					start = ifi.Block().Succs[1] // not skipped
+				}
+			}
+		}
+		if start == nil || hdr == nil {
+			r.add("R04j", c.FnName(rs), "every field handled", c.Pos(call.Pos()), Undecided, true, "the branch on accessField's skip result was not found")
+			continue
+		}
+		avoid := map[*ssa.BasicBlock]bool{}
+		for b := range lp {
+			for _, in := range b.Instrs {
+				if cc, ok := in.(ssa.CallInstruction); ok {
+					if g := cc.Common().StaticCallee(); g != nil && g.Pkg == c.SSA[""] && handlers[g.Name()] {
+						avoid[b] = true
+					}
+				}
+			}
+		}
+		round := !avoid[start] && (start == hdr || reachableAvoiding(start, hdr, avoid))
+		r.Check(!round, "R04j", c.FnName(rs), "every field handled", c.Pos(call.Pos()), "no way back to the loop head around the unpack / validate routines",
+			"an iteration of reifyStruct's field loop can go on to the next field without handing this one to reifyGetField, reifyInto, reifyMergeValue or tryRecursiveValidate: for that shape of configuration the field's validate tag and Validate() are never asked, and Unpack succeeds with a value they reject")
 	}
 }
